@@ -40,8 +40,8 @@ fn elf_flags_to_prot(flags: u32) -> u32 {
     proc_flags
 }
 
-fn round_up_to_page_size(size: u64) -> u64 {
-    (size + 0xfff) & !0xfff
+fn round_up_to_page_size(size: u64) -> Option<u64> {
+    size.checked_add(0xfff).map(|s| s & !0xfff)
 }
 
 // TODO: System V ABI mentions %rdx should have "a function pointer that the application should register with atexit" at process entry
@@ -85,7 +85,7 @@ impl Axecutor {
             if segment.p_vaddr == 0 {
                 debug_log!(
                     "ELF: Skip loading segment with p_vaddr == 0, p_type {} ({})",
-                    p_type_to_str(segment.p_type).expect("Unknown segment type"),
+                    p_type_to_str(segment.p_type).unwrap_or("unknown"),
                     segment.p_type
                 );
                 continue;
@@ -100,7 +100,7 @@ impl Axecutor {
                 PT_NULL | PT_NOTE | PT_SHLIB | PT_PHDR => {
                     debug_log!(
                         "ELF: Skip loading segment of type {} ({:#x}) @ {:#x} with size {:#x}",
-                        p_type_to_str(segment.p_type).expect("Unknown segment type"),
+                        p_type_to_str(segment.p_type).unwrap_or("unknown"),
                         segment.p_type,
                         segment.p_vaddr,
                         segment.p_memsz
@@ -182,13 +182,18 @@ impl Axecutor {
                 PT_LOAD => {
                     debug_log!(
                         "ELF: Loading segment of type {} at {:#x} with size {:#x} and offset {:#x}",
-                        p_type_to_str(segment.p_type).expect("Unknown segment type"),
+                        p_type_to_str(segment.p_type).unwrap_or("unknown"),
                         segment.p_vaddr,
                         segment.p_memsz,
                         segment.p_offset,
                     );
 
-                    let memsz = round_up_to_page_size(segment.p_memsz);
+                    let memsz = round_up_to_page_size(segment.p_memsz).ok_or_else(|| {
+                        AxError::from(format!(
+                            "ELF: Segment memory size {:#x} is too large",
+                            segment.p_memsz
+                        ))
+                    })?;
 
                     if memsz == segment.p_filesz {
                         axecutor.mem_init_area_named(
